@@ -777,6 +777,8 @@ func c01One(c *fw.Ctx, cs c01Case) {
 		return true
 	}
 
+	// every payload handed over is kept: it must still be what was sent after the later reads
+	var kept []c01Got
 	if cs.Sched == "alternate" {
 		for i := range cs.Msgs {
 			if !send(i) {
@@ -787,6 +789,7 @@ func c01One(c *fw.Ctx, cs c01Case) {
 			if !ok || !check(i, g) {
 				return
 			}
+			kept = append(kept, g)
 		}
 	} else {
 		for i := range cs.Msgs {
@@ -800,10 +803,17 @@ func c01One(c *fw.Ctx, cs c01Case) {
 			if !ok || !check(i, g) {
 				return
 			}
+			kept = append(kept, g)
 		}
 	}
 	// exactly one message per message written: nothing more may be delivered
 	recv(len(cs.Msgs), true)
+	for i, g := range kept {
+		if d := c01FirstDiff(g.p, wants[i]); d >= 0 {
+			c.Violate("C01/payload-changed-after-delivery/"+locus, fmt.Sprintf("%+v: the payload returned for message %d was correct when the read returned and differs at offset %d after later reads on the connection: the returned slice is reused", cs, i, d), cs)
+			return
+		}
+	}
 	c.OutcomeStr(shape.String())
 }
 
